@@ -75,6 +75,8 @@ func runR171(c *Ctx) {
 		})
 		c.Check(okEmb, FuncName(ctor), "embedded-backend", c.Pos(ctor.Pos()), "the embedded backend is the constructor's first parameter (slow / primary)", "the embedded backend (which receives uploads) is not the constructor's first parameter")
 		// reads start at the right backend
+		var selLits []*ssa.Function
+		var sharedSel token.Pos
 		for _, m := range []string{"Get", "GetFromComposite"} {
 			fn := c.Method(k.rel, k.typ, m)
 			if fn == nil {
@@ -94,16 +96,36 @@ func runR171(c *Ctx) {
 				// the initial backend argument: second to last
 				arg := cl.Call.Args[len(cl.Call.Args)-2]
 				ok = loadOfRecvField(fn, arg, k.firstBackend)
+				// the selector argument: made for this read (a function literal created here, or the
+				// result of a call made here) – its "already handed out" state must not outlive the read
+				switch sv := stripConv(cl.Call.Args[len(cl.Call.Args)-1]).(type) {
+				case *ssa.MakeClosure:
+					if f, isF := sv.Fn.(*ssa.Function); isF {
+						selLits = append(selLits, f)
+					}
+				case *ssa.Call:
+					if h := sv.Call.StaticCallee(); h != nil && h.Pkg == fn.Pkg && len(h.AnonFuncs) > 0 {
+						selLits = append(selLits, h.AnonFuncs[0])
+					} else {
+						sharedSel = cl.Pos()
+					}
+				default:
+					sharedSel = cl.Pos()
+				}
 			})
 			c.Check(ok, FuncName(fn), "first-backend", c.Pos(fn.Pos()), "reads consult "+k.firstBackend+" first", "reads do not start at the "+k.firstBackend+" backend")
 		}
 		// selector
-		sel := c.Method(k.rel, k.typ, "getBlobReplicatorSelector")
-		if sel == nil || len(sel.AnonFuncs) == 0 {
-			c.Broken("%s.getBlobReplicatorSelector not found", k.typ)
+		if sharedSel.IsValid() {
+			c.Fail(k.typ, "selector-per-read", c.Pos(sharedSel), "the fail-over selector handed to the read is not created for that read (it is taken from a field or another long-lived value): it hands the replicator out once and then remembers that it did, so after the first read that had to fall back every later read of an object the first backend lacks is answered NOT_FOUND although the other backend holds it")
 			continue
 		}
-		cl := sel.AnonFuncs[0]
+		if len(selLits) == 0 {
+			c.Broken("%s: the selector passed to GetWithBlobReplicator was not found", k.typ)
+			continue
+		}
+		c.Pass(k.typ, "selector-per-read", "-", "a fresh selector per read")
+		cl := selLits[0]
 		n1 := 0
 		for _, r := range returnsOf(cl) {
 			if isNilConst(r.Results[0]) {
